@@ -1,6 +1,7 @@
 package main
 
 import (
+	"strings"
 	"cmp"
 	"fmt"
 	"math"
@@ -270,9 +271,12 @@ func (w *scribbleWorld) Exec(p *Plan, st *RunStats) *Violation {
 			}
 		}
 	}
-	for _, op := range p.Ops {
+	for i, op := range p.Ops {
 		op := op
 		st.Ops++
+		// a mutation directly followed by the caller taking slices is not observed by the harness in between: the
+		// caller's Values()/Keys() is then the first read after the mutation (the one that would build and hand out a memo)
+		unobserved := i+1 < len(p.Ops) && strings.HasPrefix(p.Ops[i+1].N, "Snap") && op.C == 0
 		safely(o, op, func() {
 			o.cur = op
 			switch op.N {
@@ -321,7 +325,9 @@ func (w *scribbleWorld) Exec(p *Plan, st *RunStats) *Violation {
 						st.Fault("scribble-passed-slice")
 					}
 				}
+				o.Sparse = unobserved
 				s.Step(op, o) // passed slices are scribbled right after the call, before the comparison
+				o.Sparse = false
 				if ad, ok := s.(interface{ ArgDamage() string }); ok {
 					// "are copied": the callee only reads the caller's slice
 					if dmg := ad.ArgDamage(); dmg != "" {
